@@ -324,6 +324,22 @@ func (p *provider) isRegistered(descriptor *Descriptor) bool {
 	return p.services[TypeKey{Type: descriptor.Type, Key: descriptor.Key}] == descriptor
 }
 
+// siblingCreated reports whether another registered output of the registration
+// call that produced descriptor has been created as a singleton already.
+func (p *provider) siblingCreated(descriptor *Descriptor) bool {
+	for _, o := range descriptor.outputs {
+		if o == nil || o == descriptor || !p.isRegistered(o) {
+			continue
+		}
+
+		if _, ok := p.getSingleton(instanceKey{Type: o.Type, Key: o.Key, Group: o.Group}); ok {
+			return true
+		}
+	}
+
+	return false
+}
+
 // findGroupDescriptors finds all descriptors for a specific type within a group.
 // Returns an empty slice if the type is nil, group is empty, or no services are found.
 func (p *provider) findGroupDescriptors(serviceType reflect.Type, group string) []*Descriptor {
@@ -394,6 +410,18 @@ func (p *provider) createAllSingletonsWithContext(ctx context.Context) error {
 		// Check if already created
 		if _, exists := p.getSingleton(key); exists {
 			continue
+		}
+
+		// One invocation yields every output of a multi-output constructor. If
+		// a sibling output exists already, the constructor has run and left this
+		// output nil: running it again would replace the instances that other
+		// singletons have received.
+		if p.siblingCreated(descriptor) {
+			return &ResolutionError{
+				ServiceType: descriptor.Type,
+				ServiceKey:  descriptor.Key,
+				Cause:       fmt.Errorf("constructor returned nil for this output"),
+			}
 		}
 
 		_, err := p.rootScope.createInstance(descriptor)
